@@ -67,6 +67,13 @@ Next ==
               /\ Check(e.r # "ok" \/ Rectangular(e.w, e.h, e.len), "C14", "Rectangular", l, [w |-> e.w, h |-> e.h, len |-> e.len, payload |-> e.payload])
               /\ DecodeAgrees(Decode(e.payload), e)
               /\ UNCHANGED g
+          [] e.ev = "fileload" ->      \* a file with k sixel pictures, loaded with Buffer::from_bytes: imgs = <<ticket, w, h, len>> of the image layers
+              /\ Bump(9)
+              /\ Check(e.r = "ok", "C14", "FileLoads", l, [case |-> e.case, r |-> e.r])
+              /\ Check(e.r # "ok" \/ (Len(e.imgs) = e.k /\ e.pending = 0), "C14", "FileImageLost", l, [case |-> e.case, k |-> e.k, got |-> Len(e.imgs), pending |-> e.pending])
+              /\ Check(e.r # "ok" \/ \A i \in 1..Len(e.imgs) : Rectangular(e.imgs[i][2], e.imgs[i][3], e.imgs[i][4]), "C14", "Rectangular", l, [w |-> 0, h |-> 0, len |-> 0, payload |-> <<>>])
+              /\ Check(e.r # "ok" \/ \A i, j \in 1..Len(e.imgs) : i < j => e.imgs[i][1] # e.imgs[j][1], "C14", "FileImageDuplicated", l, [case |-> e.case])
+              /\ UNCHANGED g
           [] e.ev = "reset" -> Bump(5) /\ g' = [NoG EXCEPT !.rects = e.rects]
           [] g.dead -> UNCHANGED g
           [] e.ev = "submit" ->
